@@ -840,6 +840,7 @@ def gate_first(S: Any) -> None:
         if o == "ProofError" and out.raised:
             r = S.outcome(un.classify_auth_failure, out.exc)
             S.oblige("O5.gate_failure_reports_the_gates_code", r.returned and r.value is AuthReason.PROXY_REQUIRED, kind="post")
+    S.canary("O5.canary.credential_always_consulted", SBool(z3.BoolVal("inner" in names)))
 
 
 # ======================================================================================
